@@ -89,6 +89,9 @@ func (this *CosmosHandler) MakeDepositProposal(service *native.NativeService) (*
 	if len(proofValue.Kp) == 0 {
 		return nil, fmt.Errorf("Cosmos MakeDepositProposal, Kp is nil")
 	}
+	if err = scom.CheckIavlExistenceProof(proof.Ops); err != nil {
+		return nil, fmt.Errorf("Cosmos MakeDepositProposal, proof shape error: %s", err)
+	}
 	err = prt.VerifyValue(&proof, myHeader.Header.AppHash, proofValue.Kp, proofValue.Value)
 	if err != nil {
 		return nil, fmt.Errorf("Cosmos MakeDepositProposal, proof error: %s", err)
